@@ -82,6 +82,8 @@ type scen struct {
 	full  [][][]byte
 	dumps [][]muxdrv.KV
 	hash  [][]byte
+	res   [][]muxdrv.TxResult // B's transaction results per height
+	blockGas uint64
 	B     *muxdrv.Replica
 
 	fresh, fresh2 *muxdrv.Validator
@@ -95,6 +97,8 @@ type scen struct {
 	opCost        map[transaction.MethodName][]uint64
 	known         map[transaction.MethodName]bool
 }
+
+const blockGasLimit = 80_000
 
 const firstTwin = 4 // blocks 1..3 build state; twin blocks are firstTwin..N
 
@@ -118,6 +122,11 @@ func mustQ(v uint64) quantity.Quantity { return *quantity.NewFromUint64(v) }
 
 func buildScenario(seed uint64, n int) (*scen, error) {
 	opts := muxdrv.GenesisOpts{EpochInterval: epochInterval}
+	if seed%4 == 2 {
+		// a block gas limit: twin blocks are filled with companions up to just below it, so that the
+		// gas a FAILED transaction consumes can push a later transaction over the limit
+		opts.MaxBlockGas = blockGasLimit
+	}
 	opts.Mutate = func(doc *genesis.Document) {
 		// runtimes without a committee get suspended at the epoch transition
 		doc.RootHash.Parameters.DebugDoNotSuspendRuntimes = false
@@ -133,7 +142,7 @@ func buildScenario(seed uint64, n int) (*scen, error) {
 	if err != nil {
 		return nil, err
 	}
-	s := &scen{seed: seed, g: g, N: n, prop: int(seed % uint64(len(g.Validators)))}
+	s := &scen{seed: seed, g: g, N: n, blockGas: opts.MaxBlockGas, prop: int(seed % uint64(len(g.Validators)))}
 	s.fresh = muxdrv.NewValidator(seed, 0)
 	s.fresh2 = muxdrv.NewValidator(seed, 1)
 	s.nobody = muxdrv.NewKey(fmt.Sprintf("verif/%d/nobody", seed))
@@ -185,6 +194,7 @@ func buildScenario(seed uint64, n int) (*scen, error) {
 	s.full = make([][][]byte, n+1)
 	s.dumps = make([][]muxdrv.KV, n+1)
 	s.hash = make([][]byte, n+1)
+	s.res = make([][]muxdrv.TxResult, n+1)
 	for h := 1; h <= n; h++ {
 		var txs [][]byte
 		switch h {
@@ -285,17 +295,35 @@ func buildScenario(seed uint64, n int) (*scen, error) {
 		}
 		// Companions: only accounts 0 and 1 sign, and only pay each other.
 		nc := rng.Intn(4)
+		var budget int64 = -1
+		if s.blockGas > 0 && h >= firstTwin {
+			// fill the block to within a small random margin of the block gas limit
+			nc = 1000
+			budget = int64(s.blockGas) - int64(200+rng.Intn(3300))
+			for _, t := range txs {
+				budget -= int64(len(t)) + 2000
+			}
+		}
 		for i := 0; i < nc; i++ {
 			from, to := acc[0], acc[1]
 			if rng.Chance(50) {
 				from, to = to, from
 			}
 			amt := uint64(10 + rng.Intn(5000))
+			var raw []byte
 			if rng.Chance(15) {
-				txs = append(txs, sign(from.Key, func(n uint64) *transaction.Transaction { return muxdrv.TxBurn(n, fee(), amt) }))
+				raw = sign(from.Key, func(n uint64) *transaction.Transaction { return muxdrv.TxBurn(n, fee(), amt) })
 			} else {
-				txs = append(txs, sign(from.Key, func(n uint64) *transaction.Transaction { return muxdrv.TxTransfer(n, fee(), to.Address, amt) }))
+				raw = sign(from.Key, func(n uint64) *transaction.Transaction { return muxdrv.TxTransfer(n, fee(), to.Address, amt) })
 			}
+			if budget >= 0 {
+				budget -= int64(len(raw)) + 1000 // tx bytes + the transfer/burn operation
+				if budget < 0 {
+					nonces[from.Key.Address()]--
+					break
+				}
+			}
+			txs = append(txs, raw)
 		}
 		in := c.NewBlock(v[s.prop].ConsAddr, muxdrv.VotesAll, nil)
 		ptxs, err := s.B.Propose(in, txs)
@@ -313,6 +341,7 @@ func buildScenario(seed uint64, n int) (*scen, error) {
 		}
 		c.Applied(res)
 		s.ins[h], s.user[h], s.full[h], s.hash[h] = in, txs, ptxs, res.AppHash
+		s.res[h] = res.TxResults
 		if s.dumps[h], err = muxdrv.DumpState(s.B, 0); err != nil {
 			return nil, err
 		}
@@ -588,6 +617,7 @@ type Obs struct {
 	OtherDiff  []string // diff keys outside the allow-list
 	AllDiff    []string
 	SelfProp   bool
+	Displaced  int // later companions that ran out of BLOCK gas only in the world with the transaction
 }
 
 // twinOracle is the property predicate S evaluated on the two dumps.
@@ -600,6 +630,11 @@ func (s *scen) twinOracle(dA, dB []muxdrv.KV, ti txInfo, o *Obs) (viol []string)
 		allow[acctKey(propEnt)] = true
 		allow[commonPoolKey] = true
 		allow[lastBlockFeesKey] = true
+		if o.Displaced > 0 {
+			allow[acctKey(s.g.Accounts[0].Address)] = true
+			allow[acctKey(s.g.Accounts[1].Address)] = true
+			allow["51"] = true // total supply (a displaced burn)
+		}
 	}
 	keys := map[string]bool{}
 	for k := range mA {
@@ -686,6 +721,9 @@ func (s *scen) twinOracle(dA, dB []muxdrv.KV, ti txInfo, o *Obs) (viol []string)
 			viol = append(viol, fmt.Sprintf("signer balance delta %s, want -%s", dS, ti.fee))
 		}
 	}
+	if o.Displaced > 0 {
+		return viol // the displaced companions' fees are missing from the fee flow
+	}
 	for n, d := range map[string]*big.Int{"last block fees": dLBF, "common pool": dCP, "proposer": dP} {
 		if d.Sign() < 0 {
 			viol = append(viol, fmt.Sprintf("%s delta negative: %s", n, d))
@@ -706,6 +744,24 @@ func (s *scen) twinOracle(dA, dB []muxdrv.KV, ti txInfo, o *Obs) (viol []string)
 		viol = append(viol, fmt.Sprintf("fee not conserved: signer %s + proposer %s + lastBlockFees %s + commonPool %s = %s", dS, dP, dLBF, dCP, sum))
 	}
 	return viol
+}
+
+// findingEvidenceHash: submitEvidence (roothash/transactions.go:262-276) stores the evidence hash
+// with state.SetEvidenceHash and only then calls onEvidenceRuntimeEquivocation, which returns an
+// error when the accused key is no registered node (slashing.go:54-63): the transaction fails,
+// the hash stays.
+const findingEvidenceHash = "C08:evidence-hash-stored-before-failing-slash"
+
+func isEvidenceHashFinding(ti txInfo, o *Obs, viol []string) bool {
+	if !ti.decoded || ti.tx.Method != roothash.MethodEvidence || len(o.OtherDiff) == 0 || len(viol) != len(o.OtherDiff) {
+		return false
+	}
+	for _, k := range o.OtherDiff {
+		if !strings.HasPrefix(k, "24") { // roothash evidenceKeyFmt
+			return false
+		}
+	}
+	return true
 }
 
 // runTwin executes one twin case. It returns the observation, the analysis and violations.
@@ -742,7 +798,44 @@ func (s *scen) runTwin(cs *Case) (o *Obs, ti txInfo, viol []string, err error) {
 	}
 	r := res.TxResults[pos]
 	o.Failed, o.Code, o.Codespace, o.Log, o.GasUsed = r.Code != 0, r.Code, r.Codespace, r.Log, r.GasUsed
-	// The companions must behave the same in both worlds.
+	// The companions must behave the same in both worlds. Only with a block gas limit a LATER
+	// companion may fail in the world with the transaction, and only for lack of block gas: the
+	// gas used by a failed transaction legitimately counts against the block. The displaced
+	// companions (transfers / burns between accounts 0 and 1) then did not happen: their keys
+	// are added to the allow-list and the fee-flow sums are not checked (twinOracle).
+	displaced := 0
+	for i, rb := range s.res[h] {
+		j := i
+		if i >= pos {
+			j = i + 1
+		}
+		if j >= len(res.TxResults) {
+			break
+		}
+		ra := res.TxResults[j]
+		if ra.Code == rb.Code && ra.Codespace == rb.Codespace {
+			continue
+		}
+		if s.blockGas > 0 && i >= pos && rb.Code == 0 && ra.Code != 0 && strings.Contains(ra.Log, "out of gas") {
+			displaced++
+			continue
+		}
+		viol = append(viol, fmt.Sprintf("companion transaction %d of the block: result with=%s/%d (%s) without=%s/%d", i, ra.Codespace, ra.Code, ra.Log, rb.Codespace, rb.Code))
+	}
+	o.Displaced = displaced
+	if displaced > 0 {
+		// still required: an authentication failure consumes no gas, hence displaces nothing
+		if !ti.authPass {
+			viol = append(viol, "a transaction rejected at authentication displaced a later transaction")
+		}
+		if len(viol) > 0 {
+			return o, ti, viol, nil
+		}
+		// fall through to the state comparison with the displaced companions' keys allowed
+	}
+	if len(viol) > 0 {
+		return o, ti, viol, nil
+	}
 	dA, err := muxdrv.DumpState(a, 0)
 	if err != nil {
 		return o, ti, nil, err
@@ -857,7 +950,11 @@ type built struct {
 
 // execFailing builds a transaction that is valid up to and including authentication and
 // is meant to fail in its handler.
-func (c *gctx) execFailing() built {
+func (c *gctx) execFailing() built { return c.execFailingPick(true) }
+
+// execFailingPick: roundRobin=false draws at random without advancing the round-robin position
+// (used when the transaction only serves as raw material of a decode failure).
+func (c *gctx) execFailingPick(roundRobin bool) built {
 	s, g, r := c.s, c.s.g, c.rng
 	acc := g.Accounts
 	v := g.Validators
@@ -1376,6 +1473,9 @@ func (c *gctx) execFailing() built {
 	)
 	// Round-robin over the catalogue (so that even a small run meets every class), the two
 	// generic generators get every fourth draw.
+	if !roundRobin {
+		return gens[r.Intn(len(gens))]()
+	}
 	cycle++
 	gfn := gens[(cycle-cycle/4)%(len(gens)-2)]
 	if cycle%4 == 0 {
@@ -1524,7 +1624,7 @@ func (c *gctx) genCase() *Case {
 	default: // decode failures
 		b := c.validBase()
 		if r.Chance(40) {
-			b = c.execFailing()
+			b = c.execFailingPick(false)
 		}
 		good := muxdrv.Sign(b.key, b.tx)
 		switch r.Intn(8) {
@@ -1632,6 +1732,7 @@ func main() {
 			"kind": cs.Kind, "seed": cs.Seed, "blocks": cs.Blocks, "height": cs.Height, "pos": cs.Pos, "tx": cs.Tx, "label": cs.Label, "stage": cs.Stage, "hkind": cs.HKind, "costs": cs.Costs})
 	}
 
+	var redo []*Case
 	doTwin := func(s *scen, cs *Case) {
 		o, ti, viol, err := s.runTwin(cs)
 		if err != nil {
@@ -1662,6 +1763,9 @@ func main() {
 		if i := strings.Index(class, "/"); i > 0 && (strings.HasPrefix(class, "generic/") || strings.HasPrefix(class, "gas-sweep/")) {
 			class = cs.Label
 		}
+		if s.blockGas > 0 {
+			sum.Count("block_gas_history", fmt.Sprintf("displaced=%d", o.Displaced))
+		}
 		sum.Count("stage_aimed", cs.Stage)
 		sum.Count("stage_observed", stageObs)
 		sum.Count("height", fmt.Sprint(cs.Height))
@@ -1681,7 +1785,14 @@ func main() {
 		} else {
 			sum.Count("not_failing_label", class)
 		}
-		if len(viol) > 0 {
+		if len(viol) > 0 && isEvidenceHashFinding(ti, o, viol) {
+			// a genuine defect of the unchanged tree, reported under a stable key (the driver
+			// matches it against known_findings.json; any OTHER difference stays a violation)
+			sum.Findings = append(sum.Findings, coqout.Finding{Key: findingEvidenceHash,
+				What:   "C08 violated: roothash.Evidence fails (slashing error) but the evidence hash it stored before stays in the state: " + strings.Join(viol, " | "),
+				Replay: cs})
+			sum.Count("finding", findingEvidenceHash)
+		} else if len(viol) > 0 {
 			// shrink: the same transaction alone at position 0
 			c2 := *cs
 			c2.Pos = 0
@@ -1691,7 +1802,16 @@ func main() {
 				report(cs, viol)
 			}
 		}
-		w.Add(s.coqCase(cs, ti, o), cs)
+		if o.Displaced == 0 { // (the fee flow of a case with displaced companions is not comparable)
+			w.Add(s.coqCase(cs, ti, o), cs)
+		}
+		if s.blockGas > 0 && o.Failed && cs.Pos > 0 && strings.Contains(o.Log, fmt.Sprintf("limit: %d ", s.blockGas)) {
+			// the transaction itself ran out of BLOCK gas: its own failure class was not reached,
+			// run it once more as the first transaction of the block
+			c2 := *cs
+			c2.Pos = 0
+			redo = append(redo, &c2)
+		}
 		sum.Sample(map[string]any{"label": cs.Label, "stage": cs.Stage, "height": cs.Height, "code": fmt.Sprintf("%s/%d", o.Codespace, o.Code), "diff_keys": o.AllDiff}, 6)
 	}
 
@@ -1757,6 +1877,11 @@ func main() {
 				c := &gctx{s: s, rng: rng.Fork(), h: h, pre: kvMap(s.dumps[h-1])}
 				cs := c.genCase()
 				doTwin(s, cs)
+				for len(redo) > 0 {
+					c2 := redo[0]
+					redo = redo[1:]
+					doTwin(s, c2)
+				}
 				if len(pool) < 100 {
 					pool = append(pool, cs.Tx)
 				}
